@@ -45,6 +45,14 @@ class AuthBench:
             chk.evals += 1
             if o2 != il and not (o2.startswith("ERR") and il.startswith("ERR") and a.typ != "public-key"):
                 chk.violation(f"the same call with {nm} gives another outcome ({label}): {o2[:50]} instead of {il[:50]}", f"argument-shape auth {nm} {label.split('+')[0]}", dict(rp, argument_shape=nm, outcome=o2))
+        # the RP's policy kept in long-lived containers that are edited in place when the policy changes (same list object, same length, other content)
+        if not il.startswith("OK") or self._eq_n % 3 == 0:
+            import webauthn as _w8
+            o8 = impl.reused_policy_containers(_w8.verify_authentication_response, pol, val, a.cdj, impl.pr_verified_auth)
+            chk.evals += 2
+            if o8 is not None and o8 != il:
+                chk.violation(f"the call made with the RP's long-lived policy lists (edited in place since an earlier call) gives another outcome than with fresh lists ({label}): {o8[:50]} instead of {il[:50]}",
+                              f"policy-container-reuse auth {label.split('+')[0]}", dict(rp, reused_containers=True, outcome=o8))
         # parameters the changed source ADDED to this entry point: whatever value they are given, a response that is refused without them stays refused (an option cannot
         # buy acceptance of a deviating response)
         if not il.startswith("OK"):
